@@ -2,6 +2,10 @@
 //!   (load xBYTES (ids...) <expected>)   Document::load_mem on the reference writer's output; the objects whose
 //!                                       number is in ids (object-stream containers, the xref stream) are left out;
 //!                                       FAIL when loading fails or the result differs from <expected>
+//!   (loadz BYTES (ids...) <expected>)   the same for files whose structural streams were compressed by a real deflate
+//!                                       encoder (Python zlib at any level / strategy); BYTES = xHEX or (xHEX xHEX ...)
+//!   (objstmz (d ...) BYTES n)           ObjectStream::new on a Flate-compressed object stream of n members; FAIL unless it
+//!                                       answers n objects
 //!   (xrefstream (d ...) xCONTENT)       lopdf::xref::decode_xref_stream
 //!   (xreftable xBYTES)                  the table parser, observed through load_mem on a minimal file
 //!   (objstm (d ...) xCONTENT)           ObjectStream::new
@@ -99,12 +103,50 @@ fn loaded_sx(doc: &Document, ignore: &[u32]) -> Sx {
     )
 }
 
+/// a bytes argument: one atom xHEX or a list of such atoms (chunks, concatenated)
+fn chunks(x: &Sx) -> Option<Vec<u8>> {
+    match x {
+        Sx::L(cs) => {
+            let mut v = Vec::new();
+            for c in cs {
+                v.extend(c.as_bytes()?);
+            }
+            Some(v)
+        }
+        _ => x.as_bytes(),
+    }
+}
+
 fn main() {
     lvh::drive(|x| {
         let a = x.args();
         match x.tag() {
-            Some("load") if a.len() == 3 => {
-                let bytes = match a[0].as_bytes() {
+            Some("objstmz") if a.len() == 3 => {
+                let (d, c, n) = match (dict_of_entries(a[0].args()), chunks(&a[1]), a[2].as_u64()) {
+                    (Some(d), Some(c), Some(n)) => (d, c, n as usize),
+                    _ => return (Sx::id("badcase"), "skip".into()),
+                };
+                let mut s = Stream { dict: d, content: c, allows_compression: true, start_position: None };
+                match ObjectStream::new(&mut s) {
+                    Ok(os) => (
+                        Sx::tagged(
+                            "ok",
+                            vec![Sx::tagged(
+                                "objs",
+                                os.objects.iter().map(|(id, o)| Sx::L(vec![oid_to_sx(*id), cobj(o)])).collect(),
+                            )],
+                        ),
+                        if os.objects.len() == n {
+                            "ok".into()
+                        } else {
+                            format!("FAIL a well-formed object stream of {} members expands to {} objects", n, os.objects.len())
+                        },
+                    ),
+                    Err(e) => (err_sx(&e), format!("FAIL a well-formed object stream is rejected: {:?}", e)),
+                }
+            }
+            Some("load") | Some("loadz") if a.len() == 3 => {
+                let bytes = match chunks(&a[0]) {
                     Some(b) => b,
                     None => return (Sx::id("badcase"), "skip".into()),
                 };
